@@ -17,12 +17,12 @@ package common
 
 //@ extend func (enc *Encoder) WriteUint16
 //@   property C07
-//@   ensures [seq] seq(enc.buf) == cat(old(seq(enc.buf)), Be16Of(d))
+//@   ensures [seq] seq(enc.buf) == cat(old(seq(enc.buf)), Be16(d))
 //@   ensures [alloc] allocated(enc.buf)
 
 //@ extend func (enc *Encoder) WriteInt
 //@   property C07
-//@   ensures [seq] 0 <= d ==> seq(enc.buf) == cat(old(seq(enc.buf)), Be16Of(d))
+//@   ensures [seq] 0 <= d ==> seq(enc.buf) == cat(old(seq(enc.buf)), Be16(d))
 //@   ensures [alloc] allocated(enc.buf)
 
 //@ extend func (enc *Encoder) WriteUint64
@@ -43,7 +43,7 @@ package common
 // SnapHead: magic 0x7777, 0x00, version, the 32 bytes of the node id, the round number (8 bytes big endian).
 //@ spec SnapHead(version uint8, node crypto.Hash, round uint64) mathint = cat(cat(cat(lit(119, 119), lit(0, version)), seq(node)), Be64Of(round))
 // SnapRefs: 0x0000 for "no references", else 0x0002 and the two 32-byte round hashes.
-//@ spec SnapRefs(pre mathint, r *RoundLink) mathint = r == nil ? cat(pre, Be16Of(0)) : cat(cat(cat(pre, Be16Of(2)), seq(r.Self)), seq(r.External))
+//@ spec SnapRefs(pre mathint, r *RoundLink) mathint = r == nil ? cat(pre, Be16(0)) : cat(cat(cat(pre, Be16(2)), seq(r.Self)), seq(r.External))
 // SnapTxs(pre, txs, n): pre followed by the first n transaction hashes, in slice order.
 //@ rec SnapTxs(pre mathint, txs []crypto.Hash, n int) mathint = n <= 0 ? pre : cat(SnapTxs(pre, txs, n - 1), seq(txs[n - 1]))
 //@ reclimit SnapTxs
@@ -52,7 +52,7 @@ package common
 // SnapBody: everything up to and including the timestamp -- a function of exactly the six payload fields (and of what References and
 // Transactions point to).
 //@ spec SnapBody(version uint8, node crypto.Hash, round uint64, refs *RoundLink, txs []crypto.Hash, ts uint64) mathint =
-//@     cat(SnapTxs(cat(SnapRefs(SnapHead(version, node, round), refs), Be16Of(len(txs))), txs, len(txs)), Be64Of(ts))
+//@     cat(SnapTxs(cat(SnapRefs(SnapHead(version, node, round), refs), Be16(len(txs))), txs, len(txs)), Be64Of(ts))
 // SnapPayloadBytes: the signing payload -- the body followed by the "no signature" marker.
 //@ spec SnapPayloadBytes(version uint8, node crypto.Hash, round uint64, refs *RoundLink, txs []crypto.Hash, ts uint64) mathint =
 //@     cat(SnapBody(version, node, round, refs, txs, ts), Be64Of(0))
@@ -109,15 +109,15 @@ package common
 //@   ensures [bytes] seq(enc.buf) == SnapBytes(s)
 //@   hint at "enc.EncodeRoundReferences(s.References)" [head] seq(enc.buf) == SnapHead(s.Version, s.NodeId, s.RoundNumber) && fresh(enc.buf) && len(enc.buf) == 44
 //@   hint at "enc.WriteInt(len(s.Transactions))" [refs] seq(enc.buf) == SnapRefs(SnapHead(s.Version, s.NodeId, s.RoundNumber), s.References) && fresh(enc.buf)
-//@   hint at "slices.SortFunc(s.Transactions, func(a, b crypto.Hash) int {" [count] seq(enc.buf) == cat(SnapRefs(SnapHead(s.Version, s.NodeId, s.RoundNumber), s.References), Be16Of(len(s.Transactions))) && fresh(enc.buf)
+//@   hint at "slices.SortFunc(s.Transactions, func(a, b crypto.Hash) int {" [count] seq(enc.buf) == cat(SnapRefs(SnapHead(s.Version, s.NodeId, s.RoundNumber), s.References), Be16(len(s.Transactions))) && fresh(enc.buf)
 //@   hint at "slices.SortFunc(s.Transactions, func(a, b crypto.Hash) int {" [untouched] forall p *crypto.Hash :: {*p} inblock(p, s.Transactions) ==> *p == old(*p)
-//@   hint at "enc.WriteUint64(s.Timestamp)" [txs] seq(enc.buf) == SnapTxs(cat(SnapRefs(SnapHead(s.Version, s.NodeId, s.RoundNumber), s.References), Be16Of(len(s.Transactions))), s.Transactions, len(s.Transactions))
+//@   hint at "enc.WriteUint64(s.Timestamp)" [txs] seq(enc.buf) == SnapTxs(cat(SnapRefs(SnapHead(s.Version, s.NodeId, s.RoundNumber), s.References), Be16(len(s.Transactions))), s.Transactions, len(s.Transactions))
 //@   hint at "enc.EncodeCosiSignature(s.Signature)" [body] seq(enc.buf) == SnapBody(s.Version, s.NodeId, s.RoundNumber, s.References, s.Transactions, s.Timestamp)
 //@   loop 0 invariant [lo] 1 <= i
 //@   loop 0 invariant [distinct] forall k int :: 1 <= k && k < i ==> s.Transactions[k-1] != s.Transactions[k]
 //@   loop 1 invariant [fresh] fresh(enc.buf) && allocated(enc.buf)
 //@   loop 1 invariant [len] len(enc.buf) == 46 + (s.References == nil ? 2 : 66) + 32 * (rangeindex + 1)
-//@   loop 1 invariant [pre] loopentry(seq(enc.buf)) == cat(SnapRefs(SnapHead(s.Version, s.NodeId, s.RoundNumber), s.References), Be16Of(len(s.Transactions)))
+//@   loop 1 invariant [pre] loopentry(seq(enc.buf)) == cat(SnapRefs(SnapHead(s.Version, s.NodeId, s.RoundNumber), s.References), Be16(len(s.Transactions)))
 //@   loop 1 invariant [noop] old(TxsCanonical(s.Transactions)) ==> forall p *crypto.Hash :: {*p} inblock(p, s.Transactions) ==> *p == old(*p)
 //@   loop 1 invariant [kept] forall p *crypto.Hash :: {*p} inblock(p, s.Transactions) ==> *p == loopentry(*p)
 //@   loop 1 invariant [unfold] rangeindex + 1 < len(s.Transactions) ==> loopentry(SnapTxs(seq(enc.buf), s.Transactions, rangeindex + 2)) ==
